@@ -190,8 +190,15 @@ def main():
     for oname, O in R.oracles.items():
         for f in O["failures"]:
             oracle_fail.append((oname, f))
+    # defect members of the model family that a stream recognised in the code: they count for the property
+    # whose id prefixes the key; for the other properties they are only recorded in the evidence
+    own_hits = [k for k in R.known_hits if k.startswith(prop + ":")]
+    for k in own_hits:
+        if k not in known_keys:
+            oracle_fail.append(("model-family", {"key": k, "case": "the code matches the model-family member with this defect switch on",
+                                                 "streams": {n: S.get("member") for n, S in R.streams.items() if S.get("member")}}))
     new_fail = [(o, f) for (o, f) in oracle_fail if f.get("key") not in known_keys]
-    hit_known = sorted({f.get("key") for (o, f) in oracle_fail if f.get("key") in known_keys} | set(R.known_hits))
+    hit_known = sorted({f.get("key") for (o, f) in oracle_fail if f.get("key") in known_keys} | {k for k in own_hits if k in known_keys})
     # a broken correspondence explained entirely by a listed defect member is reported by the stream itself
     # through R.known_hits (it matched the listed member), not as broken.
 
@@ -247,6 +254,7 @@ def main():
             "samples": R.samples or [{"note": "no samples"}],
             "input_distribution": R.distribution,
             "known_findings_observed": hit_known,
+            "defect_switches_on": sorted(set(R.known_hits)),
             "broken_obligations": [{"kind": b[0], "name": b[1]} for b in broken],
             "notes": R.notes,
         },
